@@ -316,9 +316,11 @@ LAKE_TARGETS = ["SharkVerif.Props.C15", "drv_c15"]
 
 
 def build(ctx):
+    # two executables built one after the other: at most 3 compiler jobs at a time
     a = ctx.harness("c15", ["c15.cpp"], repo_sources=["src/Algorithms/LinearRegression.cpp",
                                                       "src/Algorithms/NormalizeComponentsWhitening.cpp"])
-    return {"a": a, "b": a}
+    b = ctx.harness("c15b", ["c15b.cpp"], repo_sources=["src/Algorithms/PCA.cpp", "src/Algorithms/LDA.cpp"])
+    return {"a": a, "b": b}
 
 
 def nontrivial(line):
